@@ -66,9 +66,10 @@ pub fn check_assembled(kind: &str, n: usize) -> Vec<Finding> {
             _ => {
                 let mut s = SVCB::new(1, Name::new_unchecked("svc.example"));
                 let mut params: std::collections::BTreeMap<u16, Vec<u8>> = std::collections::BTreeMap::new();
-                for step in 0..=(n % 4) {
-                    let k = (n + step) % 3 + 1;
-                    match (n / 4 + step) % 4 {
+                for step in 0..=(n % 6) {
+                    // consecutive steps call the same setter with another value size (a replacement)
+                    let k = [2usize, 1, 3, 1, 2, 3][(n / 24 + step) % 6];
+                    match (n / 6 + step / 2) % 4 {
                         0 => {
                             s.set_port(k as u16 * 1000);
                             params.insert(3, (k as u16 * 1000).to_be_bytes().to_vec());
